@@ -492,6 +492,7 @@ func finish(r *report.Run, us []*unit, results []*unitResult, deaths []deathRec,
 		}
 		r.Require(notes["fetcher-sequences-with-a-late-request-call"] > 50, "fewer than 50 fetcher sequences released a delayed request call")
 		r.Require(notes["drive-on-cases"] > 500 && notes["drive-on-rounds"] >= 3*notes["drive-on-cases"] && notes["drive-on-heights"] > 20, "the drive-on hardly ran")
+		r.Require(casesKind["consensus/multipart"] >= 100, "the multi-part proposal unit hardly ran")
 		r.Require(notes["retained-checked"] > 500 && notes["retained-grew"] > 100, "the retained-state sequences hardly ran / never made the node keep anything")
 		r.Require(notes["fetcher-distinct-states"] > 500, "the fetcher search expanded fewer than 500 states")
 		r.Require(stages["roundtrip-ok"] >= 24, "fewer than 24 message types went through the encode/decode round trip")
